@@ -71,7 +71,19 @@ func H11a() {
 	for i := 0; i < t; i++ {
 		l := vLen("len"+vDigits[i], 1, maxb)
 		s := vStr("tok"+vDigits[i], l)
-		vAssume(utf8.ValidString(s))
+		if vParam("anyutf", 0) == 0 {
+			vAssume(utf8.ValidString(s))
+		} else {
+			// legacy-encoded text: ASCII mixed with bytes that are invalid in
+			// every context (so that concatenating tokens cannot make two
+			// invalid bytes into one valid character, which no character-count
+			// index could undo); each such byte is one character
+			for j := 0; j < len(s); j++ {
+				c := s[j]
+				vAssume(c < 0x80 || c == 0xC0 || c == 0xC1 || c >= 0xF5)
+			}
+		}
+		// an invalid byte counts as one character, as in the library
 		nch[i] = utf8.RuneCountInString(s)
 		ty := vU8("type" + vDigits[i])
 		if anyType == 0 {
